@@ -131,13 +131,40 @@ pub fn run(rep: &mut Report) {
                 hists.push(vec![a, b]);
             }
         }
+        // whole reply transcripts of a driver's initialisation: reset (FA AA), a two-byte command such as "select set" or
+        // "set LEDs" (FA FA), a one-byte command such as "disable scanning" (FA), identify (FA AB, the 83 that follows is a
+        // scancode to both decoders), echo, resend, a hot-plugged keyboard's AA – every sequence of up to four replies before
+        // every pair, of five before the unprefixed makes
+        let n_short = hists.len();
+        {
+            const REPLIES: [&[u8]; 7] = [&[0xFA, 0xAA], &[0xFA, 0xFA], &[0xFA], &[0xFA, 0xAB], &[0xEE], &[0xFE], &[0xAA]];
+            let mut level: Vec<Vec<u8>> = vec![vec![]];
+            for depth in 1..=5 {
+                let mut next = Vec::new();
+                for h in level.iter() {
+                    for r in REPLIES {
+                        let mut v = h.clone();
+                        v.extend_from_slice(r);
+                        next.push(v);
+                    }
+                }
+                if depth >= 2 {
+                    hists.extend(next.iter().cloned());
+                }
+                level = next;
+            }
+        }
+        let n_upto4 = n_short + 49 + 343 + 2401;
         let mut after_hist = 0u64;
-        for h in hists.iter() {
+        for (hi, h) in hists.iter().enumerate() {
             for (ci, (cname, prefix)) in CTX.iter().enumerate() {
+                if hi >= n_upto4 && ci != 0 {
+                    continue;
+                }
                 for &c in &translatable {
                     let t = x.map[c as usize].unwrap();
                     for brk in [false, true] {
-                        if !agree_pairs.contains(&(ci, c, brk)) {
+                        if !agree_pairs.contains(&(ci, c, brk)) || (hi >= n_upto4 && brk) {
                             continue;
                         }
                         let mut s2 = h.clone();
